@@ -203,7 +203,7 @@ func (rc *RefClient) ingest(rs *resourceSet, t int64) (rids []string) {
 	}
 	for rid, raw := range rs.Models {
 		var m map[string]interface{}
-		if err := json.Unmarshal(raw, &m); err != nil || m == nil {
+		if err := lenientUnmarshal(raw, &m); err != nil || m == nil {
 			rc.viol("C02", t, rid, "badModel", "model %s in resource set is not an object: %s", rid, raw)
 			continue
 		}
@@ -211,7 +211,7 @@ func (rc *RefClient) ingest(rs *resourceSet, t int64) (rids []string) {
 	}
 	for rid, raw := range rs.Collections {
 		var c []interface{}
-		if err := json.Unmarshal(raw, &c); err != nil || c == nil {
+		if err := lenientUnmarshal(raw, &c); err != nil || c == nil {
 			if string(raw) != "[]" {
 				rc.viol("C02", t, rid, "badCollection", "collection %s in resource set is not an array: %s", rid, raw)
 				continue
@@ -603,7 +603,7 @@ func (rc *RefClient) processEvent(f *Frame) {
 			Values map[string]interface{} `json:"values"`
 		}
 		var rs resourceSet
-		if err := json.Unmarshal(f.Data, &d); err != nil || d.Values == nil {
+		if err := lenientUnmarshal(f.Data, &d); err != nil || d.Values == nil {
 			rc.viol("C02", f.T, rid, "badChange", "change event without values object: %s", f.Raw)
 			break
 		}
@@ -628,7 +628,7 @@ func (rc *RefClient) processEvent(f *Frame) {
 			Value interface{} `json:"value"`
 		}
 		var rs resourceSet
-		if err := json.Unmarshal(f.Data, &d); err != nil || d.Idx == nil {
+		if err := lenientUnmarshal(f.Data, &d); err != nil || d.Idx == nil {
 			rc.viol("C02", f.T, rid, "badAdd", "add event without idx: %s", f.Raw)
 			break
 		}
@@ -652,7 +652,7 @@ func (rc *RefClient) processEvent(f *Frame) {
 		var d struct {
 			Idx *int `json:"idx"`
 		}
-		if err := json.Unmarshal(f.Data, &d); err != nil || d.Idx == nil {
+		if err := lenientUnmarshal(f.Data, &d); err != nil || d.Idx == nil {
 			rc.viol("C02", f.T, rid, "badRemove", "remove event without idx: %s", f.Raw)
 			break
 		}
